@@ -1,4 +1,4 @@
-\* thorough: TWO transactions (same / next block) with try blocks and _deploy callbacks, depth <= 2, <= 1 change per transaction
+\* thorough: TWO transactions with try blocks and _deploy callbacks, depth <= 1, <= 2 changes per transaction
 SPECIFICATION ISpec
 CONSTANTS
   Universe = "quick"
@@ -6,8 +6,8 @@ CONSTANTS
   Contracts <- MCContracts
   Groups <- MCGroups
   InitTables <- MCInitTables
-  MaxDepth = 2
-  MaxChanges = 1
+  MaxDepth = 1
+  MaxChanges = 2
   MaxTx = 2
   WithTry = TRUE
   WithNoRS = TRUE
